@@ -77,12 +77,23 @@ def op_lnm(names, c):
     return {"k": "local_names_match", "names": list(names), "c": c}
 
 
+def op_ser(toks):
+    return {"k": "serialize", "toks": [list(t) for t in toks]}
+
+
+# PA(c=C(x="v")) / PB(c=C(x="v")) over U_WITNESS
+DOC_PA = [["enter", 0, 1], ["enter", 0, 0], ["leaf", 0], ["leave"], ["leave"]]
+DOC_PB = [["enter", 0, 2], ["enter", 0, 0], ["leaf", 0], ["leave"], ["leave"]]
+# Holder(leaf=Leaf(r, m, l, k=Root(r)), root=Root(r)) over U_INHERIT
+DOC_HOLDER = [["enter", 0, 3], ["enter", 0, 2], ["leaf", 0], ["leaf", 2], ["leaf", 3], ["enter", 4, 0], ["leaf", 0], ["leave"],
+              ["leave"], ["enter", 1, 0], ["leaf", 0], ["leaf", 1], ["leave"], ["leave"]]
+
 RESET = {"k": "reset"}
 BXC = {"k": "build_xsi_cache"}
 
 POOLS = {
     "witness": [
-        op_build(1), op_build(2), op_build(0, "urn:a"), op_build(0, "urn:b"), op_build(0),
+        op_ser(DOC_PA), op_ser(DOC_PB), op_build(0, "urn:a"), op_build(0, "urn:b"), op_build(0),
         op_q("find_type", "C"), op_fields(["x"]), op_build(7), RESET,
     ],
     "xsi": [
@@ -96,7 +107,7 @@ POOLS = {
     ],
     "inherit": [
         op_build(2), op_build(2, "urn:p"), op_build(3), op_build(0, "urn:h"), op_build(0, "urn:f"),
-        op_fetch(0, "urn:q", "Leaf"), op_fields(["r", "m"]), op_build(4, "urn:x"), op_q("find_type", "{urn:mod}NoneNs"),
+        op_fetch(0, "urn:q", "Leaf"), op_fields(["r", "m"]), op_ser(DOC_HOLDER), op_q("find_type", "{urn:mod}NoneNs"),
     ],
 }
 
@@ -118,13 +129,15 @@ FNS = [None, None, None, "", "urn:a", "urn:f", "##any", "##other", "##local", "#
 PNS = [None, None, "", "urn:a", "urn:b", "urn:p"]
 
 
-def rand_universe(rng, n=None):
+def rand_universe(rng, n=None, declared=False, clean=False):
+    """declared: every class carries Meta.namespace; clean: only buildable,
+    global, in-package dataclasses (what generated bindings look like)."""
     n = n or rng.randint(2, 7)
     U = []
     chain_names: list[set] = []
     has_text: list[bool] = []
     for i in range(n):
-        model = rng.random() > 0.1
+        model = clean or rng.random() > 0.1
         cands = [j for j in range(i) if (model or not U[j]["model"])]
         base = rng.choice(cands) if cands and rng.random() < 0.4 else None
         used = set(chain_names[base]) if base is not None else set()
@@ -151,9 +164,10 @@ def rand_universe(rng, n=None):
                     text = True
                     fields.append(fdef(name, "text"))
         U.append(cdef(
-            rng.choice(NAMES), base=base, model=model, pkg=rng.random() > 0.1, ns=rng.choice(NS_CLASS),
-            mname=rng.choice(MNAME), tns=rng.choice(TNS), modns=rng.choice(MODNS), glob=rng.random() > 0.1,
-            inner=rng.random() < 0.1, bad=model and rng.random() < 0.12, fields=fields,
+            rng.choice(NAMES), base=base, model=model, pkg=clean or rng.random() > 0.1,
+            ns=rng.choice(NS_CLASS[3:] if declared else NS_CLASS),
+            mname=rng.choice(MNAME), tns=rng.choice(TNS), modns=rng.choice(MODNS), glob=clean or rng.random() > 0.1,
+            inner=not clean and rng.random() < 0.1, bad=not clean and model and rng.random() < 0.12, fields=fields,
         ))
         chain_names.append(used)
         has_text.append(text)
@@ -178,8 +192,12 @@ def rand_op(rng, universe, loaded, keys):
     q = rng.choice(keys) if keys and rng.random() < 0.8 else rng.choice(["Nope", "{urn:a}A", XS + "int", "A", "{urn:m}B"])
     names = rng.sample(FNAMES + ["q"], rng.choice([0, 1, 1, 2, 2, 3]))
     r = rng.random()
-    if r < 0.25:
+    if r < 0.2:
         return op_build(c, rng.choice(PNS))
+    if r < 0.3 and loaded:
+        roots = [i for i in range(loaded) if universe[i]["model"]]
+        if roots:
+            return op_ser(rand_tree(rng, universe, rng.choice(roots), loaded))
     if r < 0.45:
         return op_fetch(c, rng.choice(PNS), q if rng.random() < 0.8 else rng.choice([None, ""]))
     if r < 0.55:
@@ -227,3 +245,73 @@ def rand_steps(rng, universe, keys, length):
 def exhaustive(pool, maxlen):
     for k in range(1, maxlen + 1):
         yield from itertools.product(pool, repeat=k)
+
+
+# ---------------------------------------------------------------- object trees
+def all_fields(universe, c):
+    chain = []
+    k = c
+    while k is not None:
+        chain.append(k)
+        k = universe[k]["base"]
+    out = []
+    for k in reversed(chain):
+        out.extend(universe[k]["fields"])
+    return out
+
+
+def chain_bad(universe, c):
+    k = c
+    while k is not None:
+        if universe[k]["bad"]:
+            return True
+        k = universe[k]["base"]
+    return False
+
+
+def rand_tree(rng, universe, c, loaded=None, depth=3, field=0):
+    """Type-correct token list for an instance of class c (fields ascending)."""
+    loaded = len(universe) if loaded is None else loaded
+    toks = [["enter", field, c]]
+    if not chain_bad(universe, c):
+        for i, f in enumerate(all_fields(universe, c)):
+            if f["cls"] is not None:
+                if depth > 0 and f["cls"] < loaded and rng.random() < 0.7:
+                    toks.extend(rand_tree(rng, universe, f["cls"], loaded, depth - 1, i))
+            elif rng.random() < 0.7:
+                toks.append(["leaf", i])
+    toks.append(["leave"])
+    return toks
+
+
+def rand_docs(rng, universe):
+    """Document-level calls (inputs rendered once with fresh real instances)."""
+    from xsdata.formats.dataclass.serializers import JsonSerializer, XmlSerializer
+
+    realm = Realm(universe)
+    ops = []
+    try:
+        realm.set_world(len(universe), 0)
+        roots = [i for i, d in enumerate(universe) if d["model"] and not chain_bad(universe, i)]
+        for c in rng.sample(roots, min(len(roots), 3)):
+            toks = rand_tree(rng, universe, c)
+            ops.append({"k": "xml_render", "toks": toks})
+            ops.append({"k": "json_render", "toks": toks})
+            try:
+                xml = XmlSerializer(context=realm.context()).render(realm.obj(toks))
+                js = JsonSerializer(context=realm.context()).render(realm.obj(toks))
+            except Exception:  # noqa: BLE001
+                continue
+            ops.append({"k": "xml_parse", "doc": xml, "c": c})
+            ops.append({"k": "xml_parse", "doc": xml, "c": None})
+            ops.append({"k": "json_parse", "doc": js, "c": c})
+            ops.append({"k": "json_parse_any", "doc": js, "c": None})
+        if ops:
+            ops.append({"k": "xml_parse", "doc": "<nope", "c": roots[0]})
+            ops.append({"k": "xml_parse", "doc": "<unknown-root/>", "c": None})
+            ops.append({"k": "json_parse", "doc": "{\"zz\": 1}", "c": roots[0]})
+            ops.append({"k": "reset"})
+            ops.append(op_q("find_type", "Nope"))
+    finally:
+        realm.close()
+    return ops
